@@ -13,6 +13,7 @@ import ast
 
 from ..cfg import known_falsy, known_truthy
 from ..model import self_attr, unparse, walk_body_shallow
+from .util import *  # noqa: F401,F403
 from .util import reachable_funcs, stored_forms, deferred_origins, call_name, call_recv, calls_in, need, node_assign_value, node_writes_attr, norm, registrations, where
 
 TECHNIQUE = "loss/resend typestate on (proto, connector, sent, cancelled) via guard facts and who-may-call/write"
@@ -41,23 +42,25 @@ def run(ctx):
     r = ctx.rule("R1", "loss handler: connection cleared first; every entry dropped (cancelled) or marked unsent", 4, "B")
     cf = ctx.cfg(lost)
     fl = ctx.facts(lost)
-    loops = [n for n in cf.nodes if n.kind == "for" and "self.requests" in norm(n.stmt.iter)]
+    loops = [(n, table_loop(ctx, lost, n)) for n in cf.nodes if n.kind == "for"]
+    loops = [(n, tl) for n, tl in loops if tl is not None and tl["table"] == "self.requests"]
     need(len(loops) >= 1, "loop over the request table not found in _connectionLost")
-    lp = loops[0]
+    lp, tl = loops[0]
     r.check(len(loops) == 1, "%s#single-pass" % lost.qname, "the request table is walked %d times in the loss handler" % len(loops), where(lost, lp.stmt),
             "entries are dropped / marked unsent in different passes: one of them can run after the reconnect")
-    r.check(norm(lp.stmt.iter) in ("list(self.requests.values())", "tuple(self.requests.values())",
-                                   "list(self.requests.copy().values())"), "%s#iterates-copy" % lost.qname,
+    r.check(tl["copy"], "%s#iterates-copy" % lost.qname,
             "loss handler iterates the live table while deleting from it", where(lost, lp.stmt),
             "RuntimeError / skipped entries: some unanswered requests are never re-sent")
     clr = [n for n in cf.nodes if node_assign_value(n, "proto") is not None]
     r.check(bool(clr) and cf.dominates([clr[0].id], lp.id), "%s#proto-cleared-first" % lost.qname,
             "the dead connection is not cleared before requests are re-queued", where(lost, lost.node),
             "requests written to a dead connection and never re-sent")
-    v = unparse(lp.stmt.target)
-    dels = [n for n in cf.nodes if n.kind == "stmt" and isinstance(n.stmt, ast.Delete) and "self.requests[" in norm(n.stmt)]
-    marks = [n for n in cf.nodes if n.kind == "stmt" and isinstance(n.stmt, ast.Assign) and norm(n.stmt.targets[0]) == "%s.sent" % v]
-    ok = (len(dels) == 1 and len(marks) == 1 and ("%s.cancelled is None" % v, False) in fl[dels[0].id]
+    v = tl["val"]
+    # the entry removed is the one being looked at: keyed by the loop's key, or by the entry's own correlation id
+    own_key = {tl["key"], "%s.correlationId" % v} - {None, "None.correlationId"}
+    dels = [n for n, k in table_deletes(ctx, lost, cf, "self.requests") if norm(k) in own_key]
+    marks = [n for n in cf.nodes if v and n.kind == "stmt" and isinstance(n.stmt, ast.Assign) and norm(n.stmt.targets[0]) == "%s.sent" % v]
+    ok = (v is not None and len(dels) == 1 and len(marks) == 1 and ("%s.cancelled is None" % v, False) in fl[dels[0].id]
           and ("%s.cancelled is None" % v, True) in fl[marks[0].id] and norm(marks[0].stmt.value) == "None")
     r.check(ok, "%s#drop-cancelled-mark-others" % lost.qname,
             "cancelled entries are not dropped / other entries are not marked unsent under the right condition",
@@ -78,12 +81,12 @@ def run(ctx):
     sends = [n for n in cq.nodes if any(prog.resolve_call(sq, c) is sr for c in n.calls())]
     need(sends, "queue sender does not call the write function")
     lq = [n for n in cq.nodes if n.kind == "for"]
-    vq = unparse(lq[0].stmt.target) if lq else "?"
+    vq = (table_loop(ctx, sq, lq[0]) or {}).get("val") or (unparse(lq[0].stmt.target) if lq else "?")
     r.check(all(("%s.sent is None" % vq, True) in fq[n.id] for n in sends), "%s#only-unsent" % sq.qname,
             "entries already written on this connection are written again", where(sq, sends[0].stmt),
             "a request is sent twice on one connection")
-    r.check(bool(lq) and norm(lq[0].stmt.iter) in ("list(self.requests.values())", "self.requests.values()",
-                                                   "tuple(self.requests.values())"), "%s#table-order" % sq.qname,
+    tq = table_loop(ctx, sq, lq[0]) if lq else None
+    r.check(tq is not None and tq["table"] == "self.requests" and tq["ordered"], "%s#table-order" % sq.qname,
             "resend does not iterate the request table in its own order", where(sq, sq.node), "re-sent out of order")
     sent_writes = []
     for f in prog.functions(module="brokerclient"):
@@ -305,7 +308,7 @@ def run(ctx):
           and known_falsy(fc[fire[0].id], "self.connector"))
     r.check(ok, "%s#three-states" % close.qname, "close() does not handle connected / connecting / idle as drop / cancel / fire",
             where(close, close.node), "close Deferred never fires, or a pending attempt connects after close")
-    lw = [n for n in cl.nodes if n.kind == "test" and isinstance(n.stmt, ast.While) and norm(n.stmt.test) == "self.requests"]
+    lw = [n for n in cl.nodes if n.kind == "test" and isinstance(n.stmt, ast.While) and norm(at(ctx, close, n.id, n.stmt.test)) == "self.requests"]
     ebn = [n for n in cl.nodes if any(call_name(c) == "errback" for c in n.calls())]
     pop = [n for n in cl.nodes if any(call_name(c) in ("popitem", "pop") and call_recv(c) == "self.requests" for c in n.calls())]
     ok = bool(lw) and bool(ebn) and bool(pop) and all(any(t.endswith(".cancelled is None") and pol for t, pol in fc[n.id]) for n in ebn) \
